@@ -88,7 +88,7 @@ func keyToken(k string) string {
 	}
 	return k
 }
-func (g *tokgen) num() int64  { g.n++; return int64(10000 + g.n*7) }
+func (g *tokgen) num() int64 { g.n++; return int64(10000 + g.n*7) }
 
 func (g *tokgen) value(depth int) *model.Value {
 	k := rapid.IntRange(0, 9).Draw(g.t, "vk")
@@ -569,12 +569,17 @@ func checkN(c NCase) hx.Verdict {
 type ACase struct {
 	Ext   string `json:"ext"`
 	Upper bool   `json:"upper"`
+	Out   string `json:"out,omitempty"` // an explicit -o next to the automatic input format
 }
 
 var samples = map[string]string{
-	"yaml": "a: 1\nb: [x, y]\n", "json": "{\"a\": 1, \"b\": [\"x\", \"y\"]}\n", "xml": "<root><a>1</a><b>x</b></root>\n", "csv": "a,b\n1,x\n2,y\n", "tsv": "a\tb\n1\tx\n",
-	"toml": "a = 1\n[t]\nb = \"x\"\n", "lua": "return {a = 1, b = {\"x\", \"y\"}}\n", "props": "a = 1\nb.c = x\n",
+	"yaml": "a: 1\nb: [x, y]\ns: hello world\n", "json": "{\"a\": 1, \"b\": [\"x\", \"y\"], \"s\": \"hello world\"}\n", "xml": "<root><a>1</a><b>x</b><s>hello world</s></root>\n", "csv": "a,b,s\n1,x,hello world\n2,y,z\n", "tsv": "a\tb\ts\n1\tx\thello world\n",
+	"toml": "a = 1\ns = \"hello world\"\n[t]\nb = \"x\"\n", "lua": "return {a = 1, b = {\"x\", \"y\"}, s = \"hello world\"}\n", "props": "a = 1\nb.c = x\ns = hello world\n",
 }
+
+// the names of one format are interchangeable
+var formatAliases = map[string]string{"j": "json", "json": "json", "y": "yaml", "yml": "yaml", "yaml": "yaml", "p": "props", "props": "props", "properties": "props", "x": "xml", "xml": "xml",
+	"c": "csv", "csv": "csv", "t": "tsv", "tsv": "tsv", "l": "lua", "lua": "lua", "s": "shell", "sh": "shell", "shell": "shell", "toml": "toml"}
 
 var extFormat = map[string]string{"yaml": "yaml", "yml": "yaml", "y": "yaml", "json": "json", "j": "json", "xml": "xml", "x": "xml", "csv": "csv", "c": "csv", "tsv": "tsv", "t": "tsv", "toml": "toml", "lua": "lua", "l": "lua",
 	"properties": "props", "props": "props", "p": "props", "txt": "yaml", "": "yaml", "md": "yaml", "conf": "yaml"}
@@ -604,7 +609,24 @@ func checkA(c ACase) hx.Verdict {
 	if auto.Exit != explicit.Exit || auto.Stdout != explicit.Stdout {
 		return hx.Bad("", "auto-detected formats for %s differ from -p=%s -o=%s: exit %d %q vs exit %d %q (stderr %q)", name, format, format, auto.Exit, clip(auto.Stdout), explicit.Exit, clip(explicit.Stdout), clip(auto.Stderr))
 	}
-	return hx.OK(true, name, "ext:"+c.Ext)
+	if c.Out != "" {
+		// an explicit output format stands, whatever the extension says about the input
+		a := run([]string{"-o=" + c.Out, ".", p}, nil)
+		b := run([]string{"-p=" + format, "-o=" + c.Out, ".", p}, nil)
+		if crashed(a) {
+			return hx.Bad("panic-site:binary", "yq crashed on -o=%s %s: %.300s", c.Out, name, a.Stderr)
+		}
+		if canon := formatAliases[c.Out]; canon != "" && canon != c.Out {
+			k := run([]string{"-p=" + format, "-o=" + canon, ".", p}, nil)
+			if k.Exit != b.Exit || k.Stdout != b.Stdout {
+				return hx.Bad("", "`-o=%s` and `-o=%s` name the same format but print differently for %s: exit %d %q vs exit %d %q", c.Out, canon, name, b.Exit, clip(b.Stdout), k.Exit, clip(k.Stdout))
+			}
+		}
+		if a.Exit != b.Exit || a.Stdout != b.Stdout {
+			return hx.Bad("", "`-o=%s . %s` differs from `-p=%s -o=%s`: exit %d %q vs exit %d %q (stderr %q)", c.Out, name, format, c.Out, a.Exit, clip(a.Stdout), b.Exit, clip(b.Stdout), clip(a.Stderr))
+		}
+	}
+	return hx.OK(true, name+" "+c.Out, "ext:"+c.Ext, "out:"+c.Out)
 }
 
 func TestProp(t *testing.T) {
@@ -622,13 +644,15 @@ func TestProp(t *testing.T) {
 		hx.NewSub("failures", 300, 3000, genFail, checkFail),
 		hx.NewSub("exit_status", 300, 3000, genE, checkE),
 		hx.NewSub("multifile", 250, 2500, genMF, checkMF),
+		hx.NewSub("split", 150, 1500, genSplit, checkSplit),
 		hx.NewSub("null_input", 60, 600, func(t *rapid.T) NCase {
 			return NCase{Expr: rapid.SampledFrom([]string{"1", "{\"a\": 1}", "\"x\"", ".", ".a = 1", "[1,2] | .[]", "null", ".a.b = \"c\""}).Draw(t, "expr"),
 				Stdin: rapid.SampledFrom([]string{"a: 1\n", "", "x: [1,2]\n---\ny: 2\n", "not yaml: [\n", strings.Repeat("k: v\n", 5000)}).Draw(t, "stdin"),
 				Out:   rapid.SampledFrom([]string{"", "-o=json", "-o=props"}).Draw(t, "out")}
 		}, checkN),
-		hx.NewSub("autodetect", 80, 600, func(t *rapid.T) ACase {
-			return ACase{Ext: rapid.SampledFrom(exts).Draw(t, "ext"), Upper: rapid.Bool().Draw(t, "upper")}
+		hx.NewSub("autodetect", 200, 1500, func(t *rapid.T) ACase {
+			return ACase{Ext: rapid.SampledFrom(exts).Draw(t, "ext"), Upper: rapid.Bool().Draw(t, "upper"),
+				Out: rapid.SampledFrom([]string{"", "json", "j", "yaml", "yml", "y", "props", "properties", "p", "xml", "x", "shell", "sh", "s", "lua", "l", "csv", "c", "tsv", "t", "toml"}).Draw(t, "out")}
 		}, checkAWrap),
 	)
 }
